@@ -10,7 +10,7 @@ Extraction "model.ml"
   mkv dewey_cmp dewey_new dewey_matches
   mkv_spec vcmp testc verdict_m verdict_spec letter_conflict
   print_z parse_i64 parse_u64
-  pattern_new pm glob_new glob_matches quick best2 fuel_for pkgname_new string_step
+  pattern_new pm pm_w glob_new glob_matches quick best2 fuel_for pkgname_new string_step
   print exp spec_match
   all_vars kind_of empty apply_op run get print_entry parse_entry is_completed sum_pkgbase sum_pkgversion
   stream_write stream_init print_stream utf8_valid lines
